@@ -128,26 +128,33 @@ def totalWork (b : Blk) : Nat := sumList (b.txs.map (workForMe b.creator))
 def totalValidWork (b : Blk) : Nat := sumList (b.txs.map (validWork b.creator))
 
 /-- the fee-transaction test of `Block::validate`; `expected` = `cv.fee_transaction`'s outputs (`none` when the
-    block has no golden ticket) -/
-def feeTxOk (fl : Flags) (expected : Option (List (Nat × Nat))) (b : Blk) : Bool :=
+    block has no golden ticket). `vau` = `validate_against_utxo` = `Blockchain::has_total_supply_loaded()`: true on
+    a node that holds block 1 (or a full genesis period), false on a node that joined mid-chain. The hash
+    comparison is `if validate_against_utxo && hash1 != hash2` (block.rs:3147): a mid-chain node compares nothing. -/
+def feeTxOk (fl : Flags) (expected : Option (List (Nat × Nat))) (b : Blk) (vau : Bool := true) : Bool :=
   if fl.feeTxExact then
     match expected with
     | none => b.feeTxs == []
-    | some e => b.feeTxs == [e]
+    | some e => b.feeTxs.length == 1 && (!vau || b.feeTxs == [e])
   else
     match expected, b.feeTxs.getLast? with
-    | _, none => true              -- `cv.ft_num == 0`: nothing is compared
-    | none, some _ => true         -- no ticket: the `if let (Some(..), Some(..))` does not match
-    | some e, some l => l == e     -- hash of the LAST Fee transaction against the expected one
+    | _, none => true                      -- `cv.ft_num == 0`: nothing is compared
+    | none, some _ => true                 -- no ticket: the `if let (Some(..), Some(..))` does not match
+    | some e, some l => !vau || l == e     -- hash of the LAST Fee transaction against the expected one (gated)
 
-/-- the part of `Block::validate` this property is about: `rest` = every other check of the block,
-    `needed` = the routing work requirement, `expected` = outputs of the expected fee transaction -/
-def blockAcceptsN (fl : Flags) (needed : Nat) (b : Blk) (rest : Bool) (expected : Option (List (Nat × Nat)) := none) : Bool :=
-  rest && decide (needed ≤ totalWork b) && (!fl.txVerdictPropagated || b.txs.all txValidate) && feeTxOk fl expected b
+/-- the part of `Block::validate` this property is about: `rest` = every other check of the block that applies on
+    this kind of node, `needed` = the routing work requirement, `expected` = outputs of the expected fee
+    transaction, `vau` = `validate_against_utxo`.
+    NOT gated by `vau` in the real code, hence not here: the routing-work gate (block.rs:2986-2996), burn fee,
+    difficulty, the golden-ticket solution, the transaction sweep. Gated (part of `rest` / `feeTxOk`): the
+    fee/payout/average header fields, treasury, graveyard, the rebroadcast counters, the fee-transaction hash. -/
+def blockAcceptsN (fl : Flags) (needed : Nat) (b : Blk) (rest : Bool) (expected : Option (List (Nat × Nat)) := none)
+    (vau : Bool := true) : Bool :=
+  rest && decide (needed ≤ totalWork b) && (!fl.txVerdictPropagated || b.txs.all txValidate) && feeTxOk fl expected b vau
 
 def blockAccepts (fl : Flags) (O : FloatOps) (parentBf ts parentTs hb : Nat) (b : Blk) (rest : Bool)
-    (expected : Option (List (Nat × Nat)) := none) : Bool :=
-  blockAcceptsN fl (workNeeded O parentBf ts parentTs hb) b rest expected
+    (expected : Option (List (Nat × Nat)) := none) (vau : Bool := true) : Bool :=
+  blockAcceptsN fl (workNeeded O parentBf ts parentTs hb) b rest expected vau
 
 def sumAmt : List (Nat × Nat) → Nat
   | [] => 0
@@ -162,9 +169,11 @@ inductive Verdict where
 
 /-- `add_block` on an otherwise honest block extending the tip: after winding, the supply check compares the
     ledger with the initial supply; the fee outputs the block really carries against those its header accounts for -/
-def blockOutcome (fl : Flags) (needed : Nat) (b : Blk) (rest : Bool) (expected : Option (List (Nat × Nat))) : Verdict :=
-  if blockAcceptsN fl needed b rest expected then
-    if sumAmt b.feeTxs.flatten = sumAmt (expected.getD []) then .accepted else .supplyPanic
+def blockOutcome (fl : Flags) (needed : Nat) (b : Blk) (rest : Bool) (expected : Option (List (Nat × Nat)))
+    (vau : Bool := true) : Verdict :=
+  if blockAcceptsN fl needed b rest expected vau then
+    -- `check_total_supply` returns at once when `has_total_supply_loaded()` is false
+    if !vau || sumAmt b.feeTxs.flatten = sumAmt (expected.getD []) then .accepted else .supplyPanic
   else .rejected
 
 /-! ### get_winning_routing_node -/
